@@ -43,6 +43,10 @@ structure Param (V : Type) where
   ann : Option TyClass          -- `none` = `inspect.Parameter.empty`
   dflt : Option (Dflt V)        -- `none` = `inspect.Parameter.empty`
   help : Str := []              -- description of the parameter in the docstring ("" if none)
+  /-- the default value's class is unhashable (`list`, `dict`, `set`, a non-frozen dataclass
+      instance, …): `dataclasses` rejects it as a field default ("mutable default … use
+      default_factory") -/
+  mutableDefault : Bool := false
   deriving Repr
 
 def Param.hasDefault (p : Param V) : Bool := p.dflt.isSome
@@ -73,6 +77,7 @@ structure Field (V : Type) where
   positional : Bool
   custom : List Str            -- keys of `metadata["custom_args"]`
   help : Str
+  mutable : Bool := false      -- `default=` carries an unhashable value (rejected by `make_dataclass`)
   deriving Repr
 
 /-- decorators.py:69-70: an empty annotation becomes `Any` (a "plain" field). -/
@@ -90,11 +95,25 @@ def mainDefault : Option (Dflt V) → FDefault V
     so it lands in `custom_args` (since a47a1e0 `name=` is no longer passed). -/
 def mainField (p : Param V) : Field V :=
   { name := p.name, ty := annClass p.ann, default := mainDefault p.dflt,
-    positional := p.kind == .posOnly, custom := ["help".toList], help := p.help }
+    positional := p.kind == .posOnly, custom := ["help".toList], help := p.help,
+    -- a function default goes to `default_factory`, which is never checked for hashability
+    mutable := p.mutableDefault && (match p.dflt with | some (.value _ _) => true | _ => false) }
 
-/-- the field of the *equivalent hand-written dataclass* (no custom arguments). -/
+/-- the field of the *equivalent hand-written dataclass*, written down independently of `mainField`
+    from what a person would write for the parameter: same name and annotation (`Any` when there is
+    none), `field(positional=True)` for a positional-only parameter, the default as `= value`,
+    as `default_factory=fn` for a function default and — because Python does not let one write a
+    mutable value as a class-level default — as `default_factory` for a mutable default. No custom
+    arguments. -/
 def plainField (p : Param V) : Field V :=
-  { mainField p with custom := [], help := [] }
+  { name := p.name,
+    ty := match p.ann with | some t => t | none => .plain,
+    default := match p.dflt with
+      | none => .missing
+      | some (.func _ r) => .factory r
+      | some (.value v n) => if p.mutableDefault then .factory v else .value v n,
+    positional := match p.kind with | .posOnly => true | _ => false,
+    custom := [], help := [], mutable := false }
 
 /-- `sorted(xs, key=k)` for a Boolean key is stable: model it as the insertion sort it is
     observationally equal to (`False < True`). -/
@@ -266,6 +285,8 @@ def lookupD (l : List (Str × V)) (d : V) (n : Str) : V := (l.lookup n).getD d
     the outcome of the equivalent plain parse), then the call. -/
 def mainRun (sig : List (Param V)) (parse : ParseOut V) (dflt : V) (otherArgs : List V)
     (otherKw : List (Str × V)) : MainOut V :=
+  -- `dataclasses.make_dataclass` (decorators.py:106) rejects an unhashable `default=` first
+  if (mainFields sig).any (·.mutable) then .raise (S "ValueError") else
   match setup (mainFields sig) with
   | .typeError => .raise (S "TypeError")
   | .ok => match parse with
@@ -380,7 +401,8 @@ inductive Shape
   | tuple (items : List Shape)
   | list (items : List Shape)
   | dict (empty : Bool)
-  | other
+  | other                 -- anything else whose class is hashable (None, Path, Enum member, frozen instance, …)
+  | unhashable            -- anything else whose class is unhashable (set, non-frozen dataclass instance, …)
   deriving Repr
 
 mutual
@@ -392,10 +414,16 @@ def inferable : Shape → Bool
   | .list (x :: _) => inferable x
   | .dict e => e
   | .other => false
+  | .unhashable => false
 def inferableAll : List Shape → Bool
   | [] => true
   | x :: xs => inferable x && inferableAll xs
 end
+
+/-- `f.default.__class__.__hash__ is None` (dataclasses.py `_process_class` → "mutable default") -/
+def mutableShape : Shape → Bool
+  | .list _ | .dict _ | .unhashable => true
+  | _ => false
 
 structure CParam (V : Type) where
   name : Str
@@ -406,11 +434,13 @@ structure CParam (V : Type) where
 structure CField (V : Type) where
   name : Str
   default : Option V             -- `none` = required
+  mutable : Bool := false        -- the default's class is unhashable
   deriving Repr
 
 inductive CfgOut (V : Type)
   | ok (fields : List (CField V))
   | notImplemented
+  | mutableDefault               -- ValueError from `make_dataclass` (partial.py:193), after the loop
   | docError (o : DocOut)        -- raised while reading the docstrings, before the loop
   deriving Repr
 
@@ -444,12 +474,22 @@ def configLoop (classAnn ignore : List Str) (overrides : List (Str × V × Shape
       | .yes => match effDefault overrides p with
         | none =>                                            -- required: `fields.insert(0, …)`
           configLoop classAnn ignore overrides ps ({ name := p.name, default := none } :: acc)
-        | some (v, _) =>                                     -- optional: `fields.append(…)`
-          configLoop classAnn ignore overrides ps (acc ++ [{ name := p.name, default := some v }])
+        | some (v, sh) =>                                    -- optional: `fields.append(…)`
+          configLoop classAnn ignore overrides ps
+            (acc ++ [{ name := p.name, default := some v, mutable := mutableShape sh }])
 
-def configFor (classAnn ignore : List Str) (overrides : List (Str × V × Shape))
+/-- the `fields` list handed to `make_dataclass` (partial.py:140-190) -/
+def configFields (classAnn ignore : List Str) (overrides : List (Str × V × Shape))
     (sig : List (CParam V)) : CfgOut V :=
   configLoop classAnn ignore overrides sig []
+
+/-- `config_for`: the loop, then `make_dataclass` (partial.py:193-195), which raises ValueError for
+    a field whose default value is of an unhashable class — whatever `frozen` is. -/
+def configFor (classAnn ignore : List Str) (overrides : List (Str × V × Shape))
+    (sig : List (CParam V)) : CfgOut V :=
+  match configFields classAnn ignore overrides sig with
+  | .ok fs => if fs.any (·.mutable) then .mutableDefault else .ok fs
+  | e => e
 
 /-- `config_for` including the docstrings (partial.py:144-148: class docstring first, then — for a
     class — the docstring of `__init__`; `none` = no docstring / not a class): the fields and, per
